@@ -5,7 +5,7 @@
                 nonterminal runs over all of them (the only early exit is under one_parse_p);
   reuse         an abstract node found in the table of (rule, origin, end) is reused only when the
                 lookup said `found', a new one is entered into the table entry that was reserved."""
-from ..model import resolve_addr, strip_casts, const_int, loaded_from
+from ..model import resolve_addr, strip_casts, strip_int_casts, const_int, loaded_from
 from ..core import AnalysisBroken
 from .. import expr
 from .r5 import _controlling_conditions
@@ -989,3 +989,60 @@ def rule_origins_followed(ctx, rep, config="c-lib"):
                       "(S : B A # s (0), A : 'a' | 'a' 'a' on aaa: one of two trees)" % dep[0][1], where=s.where(), witness=[dep[0][0].where(), s.where()])
     else:
         rep.ok("C03-origins", "make_parse/other-origin-pushed", sample={"push": s.where()})
+
+
+def rule_nil_for_empty_rule(ctx, rep, config="c-lib"):
+    rep.rule("C03-nil-empty", "in the loop over the candidates of a nonterminal, make_parse puts the NIL node into the slot only for a rule without abstract node whose right "
+                              "hand side is empty: that placement is controlled by `the dot position of the completed situation is 0' (sit->pos == 0, or the rule's "
+                              "rhs_len == 0) -- a rule that has symbols passes on the translation of one of them (a state is pushed for it) even when those symbols "
+                              "derived the empty string here (a test on the span, origin == end, takes such a rule for an empty one: NIL where the translation of the "
+                              "selected child -- possibly an abstract node -- belongs)")
+    from .r5 import _controlling_conditions
+    from ..model import const_int
+    p = ctx.prog(config)
+    f = p.fn("make_parse")
+    rep.cover(p, [f.name])
+    nil = None
+    for s_ in f.all_insts():
+        if s_.op == "store" and resolve_addr(f, s_.ops[1]).last_field() == "yaep_tree_node.type" and const_int(s_.ops[0]) == 0:
+            pa = resolve_addr(f, s_.ops[1])
+            if pa.root[0] == "val":
+                nil = strip_casts(f, pa.root[1])
+    if nil is None:
+        raise AnalysisBroken("C03-nil-empty: the NIL node of make_parse was not found")
+    n = 0
+    for c in f.calls():
+        if c.callee != "place_translation" or strip_casts(f, c.args[1]) != nil:
+            continue
+        sl = f.inst(strip_casts(f, c.args[0]))
+        if sl is None or sl.op not in ("phi", "select"):
+            continue      # the placement when a state is popped: C03-nil-pop
+        n += 1
+        key = "make_parse/nil-for-empty-rule#%d" % n
+        empty = None
+        for (cc, pol) in _controlling_conditions(f, c.block.name):
+            if cc.d["pred"] not in ("eq", "ne", "sle", "sgt", "slt", "sge"):
+                continue
+            for (x, y) in ((0, 1), (1, 0)):
+                l_ = f.inst(strip_int_casts(f, cc.ops[x]))
+                k = const_int(cc.ops[y])
+                if l_ is None or l_.op != "load" or k is None:
+                    continue
+                fld = resolve_addr(f, l_.ops[0]).last_field()
+                if fld not in ("sit.pos", "rule.rhs_len"):
+                    continue
+                pr = cc.d["pred"]
+                if x == 1:
+                    pr = {"slt": "sgt", "sgt": "slt", "sle": "sge", "sge": "sle"}.get(pr, pr)
+                if not pol:
+                    pr = {"eq": "ne", "ne": "eq", "slt": "sge", "sge": "slt", "sle": "sgt", "sgt": "sle"}[pr]
+                # the value is never negative: == 0, <= 0, < 1
+                if (pr == "eq" and k == 0) or (pr == "sle" and k == 0) or (pr == "slt" and k == 1):
+                    empty = cc
+        if empty is not None:
+            rep.ok("C03-nil-empty", key, sample={"placement": c.where(), "controlled_by": empty.where()})
+        else:
+            rep.violation("C03-nil-empty", key, "the NIL node is placed for a candidate rule without the test that the rule is empty (dot position / length of the right hand "
+                          "side == 0): a rule whose symbols all derived the empty string gets NIL instead of the translation of its selected symbol",
+                          where=c.where(), witness=[c.where()])
+    rep.floor("C03-nil-empty", "placements of the NIL node for a candidate rule", n, 1)
